@@ -158,6 +158,36 @@ def r191(ctx):
         ctx.bad(rid, wr, f"g96 box: formats have {n3}/{n9} fields or the len(box) dispatch does not select them consistently")
 
 
+def _expand_arith_locals(e, f, depth=4):
+    """e with every local name replaced by its definition when that local has exactly one
+    assignment in f and the assigned value is pure integer arithmetic over names and constants
+    (`frame_start = block_size * frame`): hoisting such a product into a local must not change
+    what a rule sees."""
+    import copy as _copy
+    defs = {}
+    for n in walk_local(f):
+        if isinstance(n, ast.Assign) and len(n.targets) == 1 and isinstance(n.targets[0], ast.Name):
+            defs.setdefault(n.targets[0].id, []).append(n.value)
+
+    def pure(v):
+        return all(isinstance(x, (ast.BinOp, ast.Name, ast.Constant, ast.Add, ast.Sub, ast.Mult, ast.Load, ast.UnaryOp, ast.USub)) for x in ast.walk(v))
+
+    class R(ast.NodeTransformer):
+        def visit_Name(self, node):
+            vs = defs.get(node.id)
+            if vs and len(vs) == 1 and pure(vs[0]) and isinstance(node.ctx, ast.Load):
+                return _copy.deepcopy(vs[0])
+            return node
+
+    out = _copy.deepcopy(e)
+    for _ in range(depth):
+        before = ast.dump(out)
+        out = R().visit(out)
+        if ast.dump(out) == before:
+            break
+    return ast.fix_missing_locations(out)
+
+
 def _mod_block_name(f):
     """Name on the right of `<index> % <block>` in f (the block-size variable), or None."""
     for b in walk_local(f):
@@ -267,16 +297,17 @@ def r193(ctx):
     lc = {}
     consts = []
     shs = [kwarg(n, "skip_header") for n in walk_local(rd) if isinstance(n, ast.Call) and dotted(n.func) == "np.genfromtxt"]
-    sh_names = {x.id for sh in shs if sh is not None for x in ast.walk(sh) if isinstance(x, ast.Name)}
-    for n in walk_local(rd):
-        if isinstance(n, ast.Assign) and isinstance(n.targets[0], ast.Name) and n.targets[0].id in sh_names and isinstance(n.value, ast.BinOp):
-            lf = _lin_names(n.value)
-            if lf is not None:
-                consts.append(("block", lf.get(frozenset(), 0)))
+    rparams = [a.arg for a in rd.args.args]  # (infile, frame, n_atoms)
+    frp = rparams[1] if len(rparams) > 1 else "frame"
     for sh in shs:
-        lf = _lin_names(sh) if sh is not None else None
+        lf = _lin_names(_expand_arith_locals(sh, rd)) if sh is not None else None
         if lf is not None:
             consts.append(("skip", lf.get(frozenset(), 0)))
+            # block size = coefficient of the frame number: <n_atoms> + H
+            h = lf.get(frozenset([frp]))
+            if h is not None:
+                consts.append(("block", h))
+    consts = sorted(set(consts), key=lambda x: (x[0], x[1]))
     blk = [v for k, v in consts if k == "block"]
     skips = sorted(v for k, v in consts if k == "skip")
     if blk == [H] and skips == [5, H]:
@@ -750,7 +781,7 @@ def r199(ctx):
     forms = []
     for c in [x for x in walk_local(rl) if isinstance(x, ast.Call) and last_name(x) == "genfromtxt"]:
         sh = kwarg(c, "skip_header")
-        lf = _lin_names(sh) if sh is not None else None
+        lf = _lin_names(_expand_arith_locals(sh, rl)) if sh is not None else None
         if lf is None:
             raise AnalysisError("R-19.9: skip_header of read_lammpstrj is not a linear form")
         forms.append((c, lf))
@@ -758,11 +789,15 @@ def r199(ctx):
         raise AnalysisError(f"R-19.9: read_lammpstrj has {len(forms)} genfromtxt calls (expected 2: box, atoms)")
     for c, lf in forms:
         fterms = {k: v for k, v in lf.items() if fr in k}
-        if len(fterms) == 1 and list(fterms.values())[0] == 1 and len(next(iter(fterms))) == 2:
-            ctx.ok(rid, c, f"read_lammpstrj: block addressed at {'*'.join(sorted(next(iter(fterms))))} + {lf.get(frozenset(), 0)}")
+        # stride = coefficient of the frame number = <number of atoms> + <header lines>, or a local holding it
+        resid = {frozenset(k - {fr}): v for k, v in fterms.items()}
+        names_ = [k for k in resid if k]
+        stride_ok = len(names_) == 1 and len(next(iter(names_))) == 1 and resid[names_[0]] == 1 and resid.get(frozenset(), 0) >= 0
+        if stride_ok:
+            ctx.ok(rid, c, f"read_lammpstrj: block addressed at ({'+'.join(sorted(next(iter(names_))))} + {resid.get(frozenset(), 0)}) * {fr} + {lf.get(frozenset(), 0)}")
         else:
             ctx.bad(rid, c, f"read_lammpstrj: skip_header `{short(kwarg(c, 'skip_header'), 40)}` is not <block size> * {fr} + <offset>: frame k of a multi-frame dump is not the one read", construct="read_lammpstrj skip_header " + short(kwarg(c, "skip_header"), 40))
-    bases = {frozenset(k) for c, lf in forms for k in lf if fr in k}
+    bases = {repr(sorted((sorted(k - {fr}), v) for k, v in lf.items() if fr in k)) for c, lf in forms}
     if len(bases) > 1:
         ctx.bad(rid, forms[1][0], "read_lammpstrj addresses its box block and its atom block with different frame strides: box and coordinates come from different frames", construct="read_lammpstrj stride disagreement")
     # read_trr_frame: counter from 0, test before increment
